@@ -12,7 +12,9 @@ import (
 	"github.com/go-i2p/common/destination"
 	"github.com/go-i2p/common/key_certificate"
 	"github.com/go-i2p/common/keys_and_cert"
+	"github.com/go-i2p/common/offline_signature"
 	"github.com/go-i2p/common/router_identity"
+	"github.com/go-i2p/common/signature"
 )
 
 // spec tables of the harness (typed independently of the Lean Spec/Tables and of the library)
@@ -343,6 +345,98 @@ func init() {
 			fails = append(fails, methodFails("C20", "RouterIdentity", r)...)
 		}
 		return out, fails
+	})
+}
+
+func init() {
+	// lookup: every size lookup the library offers on one type code; canonical line = the answer
+	// they must all give; C10 oracle = they agree with each other and with the specification table
+	reg("lookup", func(a []string) (string, []Fail) {
+		c := atoi(a[0])
+		var fails []Fail
+		type ans struct {
+			name     string
+			key, sig int // -1 = not reported by this lookup
+			known    bool
+			isCrypto bool
+		}
+		var as []ans
+		l, err := signature.SignatureSize(c)
+		as = append(as, ans{"signature.SignatureSize", -1, l, err == nil, false})
+		i1, ok1 := key_certificate.SigningKeySizes[c]
+		as = append(as, ans{"SigningKeySizes", i1.SigningPublicKeySize, i1.SignatureSize, ok1, false})
+		g1, e1 := key_certificate.GetSigningKeySize(c)
+		g2, e2 := key_certificate.GetSignatureSize(c)
+		as = append(as, ans{"GetSigningKeySize/GetSignatureSize", g1, g2, e1 == nil && e2 == nil, false})
+		if (e1 == nil) != (e2 == nil) {
+			fails = append(fails, fail("C10", "lookup-disagree", "GetSigningKeySize and GetSignatureSize disagree on whether code %d is known", c))
+		}
+		if _, kerr := key_certificate.GetKeySizes(c, 0); (kerr == nil) != (e1 == nil) {
+			fails = append(fails, fail("C10", "lookup-disagree", "GetKeySizes and GetSigningKeySize disagree on code %d", c))
+		}
+		j1, okc1 := key_certificate.CryptoKeySizes[c]
+		as = append(as, ans{"CryptoKeySizes", j1.CryptoPublicKeySize, -1, okc1, true})
+		g3, e3 := key_certificate.GetCryptoKeySize(c)
+		as = append(as, ans{"GetCryptoKeySize", g3, -1, e3 == nil, true})
+		if c >= 0 && c < 65536 {
+			i2, ok2 := key_certificate.SignaturePublicKeySizes[uint16(c)]
+			as = append(as, ans{"SignaturePublicKeySizes", i2, -1, ok2, false})
+			ok, os_ := offline_signature.SigningPublicKeySize(uint16(c)), offline_signature.SignatureSize(uint16(c))
+			as = append(as, ans{"offline_signature sizes", ok, os_, ok != 0 || os_ != 0, false})
+			j2, okc2 := key_certificate.CryptoPublicKeySizes[uint16(c)]
+			as = append(as, ans{"CryptoPublicKeySizes", j2, -1, okc2, true})
+			if kc, _, kerr := key_certificate.NewKeyCertificate(cat([]byte{5, 0, 4}, u16(c), u16(c))); kerr == nil {
+				as = append(as, ans{"KeyCertificate methods", kc.SigningPublicKeySize(), kc.SignatureSize(), kc.SigningPublicKeySize() != 0 || kc.SignatureSize() != 0, false})
+				cs, cerr := kc.CryptoPublicKeySize()
+				as = append(as, ans{"KeyCertificate.CryptoSize", kc.CryptoSize(), -1, kc.CryptoSize() != 0, true})
+				as = append(as, ans{"KeyCertificate.CryptoPublicKeySize", cs, -1, cerr == nil, true})
+			}
+		}
+		sp, sknown := specSig[c]
+		cp, cknown := specCrypto[c]
+		for _, x := range as {
+			if x.isCrypto {
+				if x.known != cknown || (cknown && x.key != cp) || (!x.known && x.key != 0) {
+					fails = append(fails, fail("C10", "lookup-crypto:"+x.name, "%s on crypto code %d: known=%v size=%d, specification: known=%v size=%d", x.name, c, x.known, x.key, cknown, cp))
+				}
+				continue
+			}
+			bad := x.known != sknown
+			if sknown && x.known {
+				if (x.key >= 0 && x.key != sp[0]) || (x.sig >= 0 && x.sig != sp[1]) {
+					bad = true
+				}
+			}
+			if !x.known && (x.key > 0 || x.sig > 0) {
+				bad = true
+			}
+			if bad {
+				fails = append(fails, fail("C10", "lookup-sig:"+x.name, "%s on signing code %d: known=%v key=%d sig=%d, specification: known=%v %v", x.name, c, x.known, x.key, x.sig, sknown, sp))
+			}
+		}
+		sg, cr := "unknown", "unknown"
+		if ok1 {
+			sg = fmt.Sprintf("%d/%d", i1.SigningPublicKeySize, i1.SignatureSize)
+		}
+		if okc1 {
+			cr = itoa(j1.CryptoPublicKeySize)
+		}
+		return fmt.Sprintf("sig=%s crypto=%s", sg, cr), fails
+	})
+	reg("destAddr", func(a []string) (string, []Fail) {
+		w := unhx(a[0])
+		d, rem, err := destination.ReadDestination(w)
+		if err != nil {
+			return "err", nil
+		}
+		h, _ := d.Hash()
+		b32, _ := d.Base32Address()
+		b64, _ := d.Base64()
+		fails := identityFails("Destination", w[:len(w)-len(rem)], &d)
+		if hx(unhx(a[1])) != hx(func() []byte { x := sha256.Sum256(w[:len(w)-len(rem)]); return x[:] }()) {
+			fails = append(fails, fail("HARNESS", "bad-oracle-answer", "the sha256 argument is not SHA-256 of the identity bytes"))
+		}
+		return fmt.Sprintf("ok hash=%s b32=%s b64=%s", hx(h[:]), hxs(b32), hxs(b64)), fails
 	})
 }
 
